@@ -170,3 +170,24 @@ def run_case(case, ctx):
             "%s(L, indices=%r) vs %s(sub)" % (name, idx, name))
         ctx.check(np.asarray(r_idx).shape == (len(idx), len(idx)), "matrix_shape:" + name,
                   lambda: "shape %r" % (np.asarray(r_idx).shape,))
+    # the caller edits a train of a list it already passed (still valid input) and calls
+    # again with the SAME list object: every form must answer for the new content
+    new = ps.edit_in_place(sub[0])
+    for name, fn, keys, has_iv in specs[:6]:
+        kw = {}
+        if "MRTS" in keys and case["mrts"] is not None:
+            kw["MRTS"] = case["mrts"]
+        if "RI" in keys and case["ri"]:
+            kw["RI"] = True
+        if "max_tau" in keys:
+            kw["max_tau"] = case["max_tau"]
+        if has_iv and iv is not None:
+            kw["interval"] = iv
+        r_same = ctx.call(name + "(same list after edit)", fn, sub, **kw)
+        r_new = ctx.call(name + "(new list after edit)", fn, list(sub), **kw)
+        r_star = ctx.call(name + "(*sub after edit)", fn, *sub, **kw)
+        cmp("after_in_place_edit:" + name, r_same, r_new,
+            "%s(sub) with the same list object after editing sub[0] in place to %r vs a "
+            "new list of the same trains" % (name, new))
+        cmp("after_in_place_edit:" + name, r_star, r_new,
+            "%s(*sub) after the edit vs %s(list)" % (name, name))
